@@ -434,12 +434,14 @@ impl<'a> Validator<'a> {
     /// block sequence value legitimately sits at its mapping key's indentation,
     /// so a same-indent sequence under a mapping is allowed.
     fn check_block_indent(&mut self) -> Result<(), YamlValidationError> {
-        // Anchor/alias/tag property lines do not establish or test a frame.
-        if matches!(self.peek(), Some(b'&' | b'*' | b'!')) {
-            return Ok(());
-        }
         let d = self.line_indent as u32;
         let kind = self.line_kind();
+        // A line that is only a property (`&a`, `!t`) or an alias neither
+        // establishes nor tests a frame; a property-led entry (`&a k1:`) is a
+        // mapping entry at this indentation like any other.
+        if matches!(self.peek(), Some(b'&' | b'*' | b'!')) && kind == LineKind::Scalar {
+            return Ok(());
+        }
 
         // Dedent: drop deeper frames.
         let mut popped = false;
